@@ -163,3 +163,49 @@ func VX_C12_PipeLengthOnWire(args []int) {
 	vxAssert(w.off == len(w.data), "both frames consumed exactly")
 	vxCover("c12.pipe.length")
 }
+
+func init() { vxRegister("VX_C12_UnregisteredInPipe", VX_C12_UnregisteredInPipe) }
+
+// VX_C12_UnregisteredInPipe: a pipe of up to three filters in which ONE
+// position (any) names an unregistered filter and the others are registered:
+// Append refuses it (and appends nothing of that call), and a frame announcing
+// that pipe is refused instead of being passed through the remaining filters.
+// args: n (pipe length 1..3), pos (position of the unregistered id)
+func VX_C12_UnregisteredInPipe(args []int) {
+	n, pos := args[0], args[1]
+	id := vxByte("id")
+	vxAssume(id != 'A' && id != 'B' && id != 'C')
+	good := []byte{'A', 'B', 'C'}
+	ids := make([]byte, n)
+	for k := range ids {
+		ids[k] = good[k%3]
+	}
+	ids[pos] = id
+	p := xfer.NewXferPipe()
+	vxAssert(p.Append(ids...) != nil, "Append of a pipe containing an unregistered id fails, wherever the id stands")
+	// frame with that pipe: payload is what the registered filters would produce for an honest sender
+	m := NewMessage()
+	m.SetSeq(3)
+	m.SetMtype(1)
+	m.SetServiceMethod("/p")
+	m.SetBody([]byte("bb"))
+	for k := range ids {
+		if k != pos {
+			m.XferPipe().Append(ids[k])
+		}
+	}
+	w := &vxBuf{}
+	vxAssume(RawProtoFunc(w).Pack(m) == nil)
+	frame := w.data
+	// splice the full pipe (with the unknown id at pos) in place of the honest one
+	honest := n - 1
+	rest := frame[5+honest:]
+	total := 4 + 1 + n + len(rest)
+	evil := []byte{byte(total >> 24), byte(total >> 16), byte(total >> 8), byte(total), byte(n)}
+	evil = append(evil, ids...)
+	evil = append(evil, rest...)
+	got := NewMessage(vxBytesBody())
+	err := RawProtoFunc(&vxBuf{data: evil}).Unpack(got)
+	vxAssert(err != nil, "a frame whose pipe names an unregistered filter at any position is refused")
+	vxCover("c12.unregistered-in-pipe")
+}
